@@ -132,21 +132,22 @@ def _build_single(prof):
         g.scopes = [dict(G.FULL_PRELUDE_SCOPE)]
         g.budget = 1
         body = g.statement(False, 0)
-        return G.FULL_PRELUDE + body + [['return', ['bin', '+', ['var', 'x'], ['un', 'cardinality', ['var', 'as1']]]]]
+        return G.FULL_PRELUDE + body + G.observe(g.scopes[0], body, g.s) + [['return', ['var', 'o9']]]
     return build
 
 
 @item('single-statements', stands_in_for=STANDS, shards=2, weight=1,
-      bound='prelude (a1,b1,as1 selected; a2,b2,l1 created; x=1) + every single statement the generator can form with atomic '
+      bound='prelude (a1,b1,l2,as1 selected; a2,b2,l1 created; x=1) + every single statement the generator can form with atomic '
             'expressions: assignment to variables/attributes, create, delete, relate/unrelate over R1..R4 in both argument orders '
             '(phrases, using), select any/many from instances (with/without where), select one/any/many related by chains of '
-            'length 1 (quick) / 2 (thorough) from instance and set, return, control stop; x 3 populations; exhaustive')
+            'length 1 (quick) / 2 (thorough) from instance and set, return, control stop; followed by an epilogue that stores the final variable values in the population; x 3 populations; exhaustive')
 def single_statements(ctx):
+    import random
     prof = dict(depth=0, ints=[0, 2], strs=['x'], chain=1 if ctx.quick else 2, elifs=[0], where=0.5)
     ctx.note(NOTE)
-    n = 0
-    for tree in G.enumerate_all(_build_single(prof)):
-        n += 1
+    trees = list(G.enumerate_all(_build_single(prof)))
+    random.Random(4).shuffle(trees)          # fixed order, independent of the seed: the space is enumerated completely
+    for n, tree in enumerate(trees):
         if n % ctx.nshards != ctx.shard:
             continue
         if ctx.expired():
@@ -163,7 +164,7 @@ CONTROL_MENU = [['assign', X, ['bin', '+', X, ['int', 1]]],
                 ['assign', ['attr', ['var', 'a1'], 'i'], ['bin', '+', ['attr', ['var', 'a1'], 'i'], X]],
                 ['create', None, 'B']]
 CONTROL_CONDS = [['bool', True], ['bool', False], ['bin', '<', X, ['int', 2]]]
-CONTROL_PROFILE = dict(menu=CONTROL_MENU, conds=CONTROL_CONDS, depth=0, ints=[7], elifs=[0, 1], counted=1.0, bounds=[2], while_ops=['<'],
+CONTROL_PROFILE = dict(inc_first=1.0, menu=CONTROL_MENU, conds=CONTROL_CONDS, depth=0, ints=[7], elifs=[0, 1], counted=1.0, bounds=[2], while_ops=['<'],
                        counters_by_depth=['y', 'z', 'y', 'z'], loop_vars={'A': ['a2'], 'B': ['b2'], 'L': ['l1']},
                        kinds=dict(simple=1, if_=1, while_=1, for_=1, break_=1, continue_=1, return_=1, stop=1))
 
@@ -184,12 +185,13 @@ def _build_control(budget):
 @item('control-flow', stands_in_for=STANDS, shards=6, weight=3,
       bound='prelude + every nesting of if/elif/else, counted while, for each over the 3-instance set, break, continue, return, '
             'control stop around 3 marker statements (x=x+1; a1.i=a1.i+x; create B) and 3 guards (true,false,x<2), up to 3 statements '
-            'in total (quick, exhaustive: 15982 programs) / 4 statements (thorough: 754013 programs, enumerated in order as far as the budget allows); population rich')
+            'in total (exhaustive: 15982 programs); thorough adds samples of the 4-statement space (754013 programs); population rich')
 def control_flow(ctx):
+    import random
     ctx.note(NOTE)
-    n = 0
-    for tree in G.enumerate_all(_build_control(3 if ctx.quick else 4)):
-        n += 1
+    trees = list(G.enumerate_all(_build_control(3)))
+    random.Random(4).shuffle(trees)          # fixed order, independent of the seed: the space is enumerated completely
+    for n, tree in enumerate(trees):
         if n % ctx.nshards != ctx.shard:
             continue
         if ctx.expired():
@@ -197,6 +199,15 @@ def control_flow(ctx):
             return
         run_case(ctx, tree, 'rich', 'control-flow')
     ctx.exhausted = True
+    if ctx.quick:
+        return
+    build = _build_control(4)
+    extra = 0
+    while not soft_expired(ctx):             # thorough: the 4-statement space (754013 programs) is sampled
+        tree = build(G.RandomChooser(ctx.rng))
+        run_case(ctx, tree, 'rich', 'control-flow')
+        extra += 1
+    ctx.note('3-statement space enumerated completely; %d samples of the 4-statement space in this shard' % extra)
 
 
 # ------------------------------------------------------------------------------------------------- sampled programs
@@ -231,11 +242,10 @@ def _division_clause(op, a, b):
       bound='return (a / b) and return (a % b) for all integers -7 <= a, b <= 7, b != 0 (literals and variables); integer division '
             'truncates toward zero, the remainder takes the sign of the dividend; exhaustive')
 def division_modulo(ctx):
+    pairs = sorted(((a, b) for a in range(-7, 8) for b in range(-7, 8) if b != 0), key=lambda p: (abs(p[0]) + abs(p[1]), p))
     for op in ('/', '%'):
-        for a in range(-7, 8):
-            for b in range(-7, 8):
-                if b == 0:
-                    continue
+        for a, b in pairs:
+            if True:
                 for form in ('literals', 'variables'):
                     if ctx.expired():
                         ctx.exhausted = False
